@@ -29,6 +29,9 @@ def scribble(obj):
     if isinstance(obj, np.ndarray):
         if obj.size and obj.dtype.kind in "fiu":
             obj[...] = 123456
+        elif obj.dtype.kind == "O":         # an object array hands out whatever its entries reference
+            for v in obj.ravel():
+                scribble(v)
     elif isinstance(obj, dict):
         for v in obj.values():
             scribble(v)
@@ -45,6 +48,15 @@ def fill(sm, rng, nb):
         sm.commit_current_to_history()
 
 
+def ragged_ok(f):
+    """batches of unequal size cannot be stacked: the accessor may refuse (ValueError) — or return something, which is then
+    scribbled on like every other result"""
+    try:
+        return f()
+    except ValueError:
+        return None
+
+
 def check_manager(nb):
     rng = np.random.RandomState(nb)
     sm = StateManager(2)
@@ -53,13 +65,14 @@ def check_manager(nb):
     acc = {
         "get_current()": lambda: sm.get_current(),
         "get_current('u')": lambda: sm.get_current("u"),
-        "get_history('logl')": lambda: sm.get_history("logl") if nb and len({len(a) for a in sm._history["logl"]}) == 1 else None,
+        "get_history('logl')": lambda: ragged_ok(lambda: sm.get_history("logl")) if nb else None,
+        "get_history('u')": lambda: ragged_ok(lambda: sm.get_history("u")) if nb else None,
         "get_history('u', flat=True)": lambda: sm.get_history("u", flat=True) if nb else None,
         "get_history('logl', flat=True)": lambda: sm.get_history("logl", flat=True) if nb else None,
         "get_history('logl', index=0)": lambda: sm.get_history("logl", index=0) if nb else None,
         "get_last_history('u')": lambda: sm.get_last_history("u"),
         "to_dict()": lambda: sm.to_dict(),
-        "compute_results()": lambda: sm.compute_results() if nb and len({len(a) for a in sm._history["logl"]}) == 1 else None,
+        "compute_results()": lambda: ragged_ok(lambda: sm.compute_results()) if nb else None,
         "compute_logw_and_logz()": lambda: sm.compute_logw_and_logz(1.0) if nb else None,
     }
     for name, f in acc.items():
